@@ -5,8 +5,15 @@ Generated DDL scripts (create / alter / rename / drop of types, properties, link
 link properties, constraints, indexes, annotations, abstract types with inheritance,
 scalar types, functions, aliases, globals — and on purpose FAILING commands: drop of a
 referenced object, duplicate create, rename onto an existing name, commands on
-objects that do not exist) are applied statement by statement.  After every
-statement the real schema is audited with the declarative invariant:
+objects that do not exist) are applied statement by statement THE WAY THE SERVER DOES:
+a first, non-canonical pass (`delta_and_schema_from_ddl`) and then a replay of the
+returned canonical delta on the pre-statement schema with a fresh `CommandContext`
+(`server/compiler/ddl.py::_process_delta`); the replayed schema — the one the server
+stores — must be structurally equal to the first-pass schema.  A fixed corpus of
+rename scripts (pointers, link properties, an abstract annotation renamed across
+modules, an abstract constraint, types with descendants; then DROP / CREATE of the old
+and new names) runs first on every run.  After every statement the real (replayed)
+schema is audited with the declarative invariant:
 
 * delta audit (every statement): for every object whose data tuple changed, appeared
   or disappeared and for every object it referred or refers to — `get_referrers_ex`
@@ -14,6 +21,13 @@ statement the real schema is audited with the declarative invariant:
   independently from the data tuples), every new reference resolves, nobody refers to
   a dropped object, the dropped object is reachable through no lookup, name lookups
   (`get`, `get_global`, `get_functions`) agree with the data, old names are gone;
+* refdict consistency (every statement for the touched objects, every object in the full
+  audit): refdict collections (`ObjectType.pointers`, `.annotations`, `.constraints`,
+  `.indexes`, `Link.pointers`, …) are name-keyed lookups held in object data — every
+  cached key equals the key the collection type computes from the member's CURRENT
+  name, looking that key up through the owner returns the member, members have the
+  refdict's class, and every object that names an owner (`source` / `subject`) is listed
+  in that owner's collection (no orphans);
 * full audit (base schema, end of every script): the same over ALL objects of the
   schema (std library included, ~6000 objects), both directions of all three name
   indexes and of the reverse-reference index;
@@ -38,13 +52,19 @@ BASES = [
     '''
     abstract type Named { required property name -> str { constraint exclusive; } index on (.name); }
     abstract annotation note;
+    abstract constraint posval { using (__subject__ > 0); }
     scalar type Short extending str { constraint max_len_value(12); }
     type User extending Named {
         multi link friends -> User { property since -> int64; };
         property nick -> Short;
         annotation title := 'a user';
+        annotation note := 'noted';
     }
-    type Post { required link author -> User; property title -> str { constraint max_len_value(10); } }
+    type Post {
+        required link author -> User { property weight -> int64; };
+        property title -> str { constraint max_len_value(10); annotation note := 'the title'; }
+        property rank -> int64 { constraint posval; }
+    }
     function inc(x: int64) -> int64 using (x + 1);
     ''',
     '''
@@ -55,6 +75,46 @@ BASES = [
     global cur -> str;
     alias Docs := Doc { body };
     ''',
+]
+
+
+# fixed scripts, run first on every run: renames of refdict members and of what they are
+# named after (the owner's name-keyed collection must follow), then DROP / CREATE of the
+# old and the new names
+CORPUS = [
+    (0, ['alter type Post { alter property title rename to headline; };',
+         'alter type Post { create property title -> str; };',
+         'alter type Post { drop property headline; };',
+         'alter type Post { alter link author rename to writer; };',
+         'alter type Post { alter link writer { alter property weight rename to w2; }; };',
+         'alter type Post { alter link writer { drop property weight; }; };',
+         'alter type Post { alter link writer { drop property w2; }; };']),
+    (0, ['alter type Named { alter property name rename to label; };',
+         'alter type User { drop property label; };',
+         'alter type User { create property name -> str; };',
+         'alter type Named { drop property label; };',
+         'alter type User { alter link friends { alter property since rename to since2; }; };',
+         'alter type User { alter link friends { create property since -> int64; }; };']),
+    (0, ['alter abstract annotation note rename to other::note2;',
+         "alter type Post { create annotation other::note2 := 'x'; };",
+         'create abstract annotation note;',
+         "alter type User { create annotation note := 'y'; };",
+         'drop abstract annotation other::note2;',
+         'alter type User { drop annotation other::note2; };',
+         'alter abstract constraint posval rename to posval2;',
+         'alter type Post { alter property rank { drop constraint posval; }; };',
+         'alter type Post { alter property rank { drop constraint posval2; }; };',
+         'drop abstract constraint posval2;']),
+    (1, ['alter type Base rename to Base2;',
+         'alter type Base2 { alter property tag rename to label; };',
+         'alter type Doc { drop property label; };',
+         'alter type Folder { alter link docs rename to papers; };',
+         'alter type Timed { alter property at rename to stamp; };',
+         'alter type Doc rename to Paper;',
+         'alter type Paper { alter property body rename to text; };',
+         'drop alias Docs;',
+         'alter type Paper { drop property text; };',
+         'drop type Base2;']),
 ]
 
 
@@ -69,10 +129,13 @@ class Sym:
                 'Named': {'abstract': True, 'bases': [], 'props': {'name': 'str'}, 'links': {}},
                 'User': {'abstract': False, 'bases': ['Named'], 'props': {'nick': 'Short'},
                          'links': {'friends': 'User'}},
-                'Post': {'abstract': False, 'bases': [], 'props': {'title': 'str'}, 'links': {'author': 'User'}},
+                'Post': {'abstract': False, 'bases': [], 'props': {'title': 'str', 'rank': 'int64'},
+                         'links': {'author': 'User'}},
             }
             self.scalars, self.funcs, self.annos = ['Short'], ['inc'], ['note']
             self.aliases, self.globals_ = [], []
+            self.aconstraints = ['posval']
+            self.linkprops = {('User', 'friends'): ['since'], ('Post', 'author'): ['weight']}
         else:
             self.types = {
                 'Base': {'abstract': True, 'bases': [], 'props': {'tag': 'str'}, 'links': {}},
@@ -83,10 +146,13 @@ class Sym:
             }
             self.scalars, self.funcs, self.annos = [], [], []
             self.aliases, self.globals_ = ['Docs'], ['cur']
+            self.aconstraints = []
+            self.linkprops = {}
         self.constraints = {}      # (type, prop) -> [text]
         self.indexes = {}          # type -> [prop]
         self.tannos = {}           # type -> [anno]
         self.counter = 0
+        self.followups = []        # statements queued to poke at the old / new names after a rename
 
     def fresh(self, prefix):
         self.counter += 1
@@ -97,6 +163,93 @@ def gen_stmt(sym: Sym, rng):
     """returns (kind, ddl text, effect) — effect(sym) is applied when the engine accepts"""
     T = sorted(sym.types)
     pick_t = lambda: rng.choice(T) if T else 'Nope'
+    if sym.followups and rng.random() < 0.75:
+        kind, ddl = sym.followups.pop(0)
+        return kind, ddl, lambda s: None
+    # ---- renames of referenced objects (refdict members) and of what they are named after
+    if rng.random() < 0.16:
+        j = rng.random()
+        if j < 0.35:
+            t = pick_t()
+            ptrs = [('property', p) for p in sym.types[t]['props']] + [('link', l) for l in sym.types[t]['links']]
+            if ptrs:
+                kind, p = rng.choice(ptrs)
+                n = sym.fresh('q')
+                key = 'props' if kind == 'property' else 'links'
+                ty = 'str' if kind == 'property' else t
+
+                def e(s):
+                    s.types[t][key][n] = s.types[t][key].pop(p)
+                    if (t, p) in s.constraints:
+                        s.constraints[(t, n)] = s.constraints.pop((t, p))
+                    if p in s.indexes.get(t, []):
+                        s.indexes[t] = [n if x == p else x for x in s.indexes[t]]
+                    if (t, p) in s.linkprops:
+                        s.linkprops[(t, n)] = s.linkprops.pop((t, p))
+                    s.followups += rng.sample([
+                        ('after rename: drop new name', f'alter type {t} {{ drop {kind} {n}; }};'),
+                        ('after rename: create old name', f'alter type {t} {{ create {kind} {p} -> {ty}; }};'),
+                        ('after rename: drop old name', f'alter type {t} {{ drop {kind} {p}; }};'),
+                        ('after rename: create new name', f'alter type {t} {{ create {kind} {n} -> {ty}; }};'),
+                    ], 2)
+                return f'rename {kind}', f'alter type {t} {{ alter {kind} {p} rename to {n}; }};', e
+        elif j < 0.5 and sym.linkprops:
+            (t, l) = rng.choice(sorted(sym.linkprops))
+            if sym.linkprops[(t, l)] and t in sym.types and l in sym.types[t]['links']:
+                w = rng.choice(sym.linkprops[(t, l)])
+                n = sym.fresh('w')
+
+                def e(s):
+                    s.linkprops[(t, l)] = [n if x == w else x for x in s.linkprops[(t, l)]]
+                    s.followups += rng.sample([
+                        ('after rename: drop new name', f'alter type {t} {{ alter link {l} {{ drop property {n}; }}; }};'),
+                        ('after rename: create old name',
+                         f'alter type {t} {{ alter link {l} {{ create property {w} -> int64; }}; }};'),
+                        ('after rename: drop old name', f'alter type {t} {{ alter link {l} {{ drop property {w}; }}; }};'),
+                    ], 2)
+                return ('rename link property',
+                        f'alter type {t} {{ alter link {l} {{ alter property {w} rename to {n}; }}; }};', e)
+        elif j < 0.7 and sym.annos:
+            a = rng.choice(sym.annos)
+            n = sym.fresh('an')
+            if rng.random() < 0.5:
+                n = 'other::' + n          # across modules
+            t = pick_t()
+
+            def e(s):
+                s.annos[s.annos.index(a)] = n
+                for tt in s.tannos:
+                    s.tannos[tt] = [n if x == a else x for x in s.tannos[tt]]
+                s.followups += rng.sample([
+                    ('after rename: use new name', f"alter type {t} {{ create annotation {n} := 'x'; }};"),
+                    ('after rename: drop old name', f'drop abstract annotation {a};'),
+                    ('after rename: create old name', f'create abstract annotation {a};'),
+                    ('after rename: drop new name', f'drop abstract annotation {n};'),
+                ], 2)
+            return 'rename abstract annotation', f'alter abstract annotation {a} rename to {n};', e
+        elif j < 0.85 and sym.aconstraints:
+            a = rng.choice(sym.aconstraints)
+            n = sym.fresh('ac')
+
+            def e(s):
+                s.aconstraints[s.aconstraints.index(a)] = n
+                s.followups += rng.sample([
+                    ('after rename: drop old name', f'drop abstract constraint {a};'),
+                    ('after rename: create old name', f'create abstract constraint {a} {{ using (__subject__ > 1); }};'),
+                    ('after rename: drop new name', f'drop abstract constraint {n};'),
+                ], 1)
+            return 'rename abstract constraint', f'alter abstract constraint {a} rename to {n};', e
+        elif T:
+            t = pick_t()
+            ints = [p for p, ty in sym.types[t]['props'].items() if ty == 'int64']
+            if ints and sym.aconstraints:
+                p, a = rng.choice(ints), rng.choice(sym.aconstraints)
+                return ('use abstract constraint',
+                        f'alter type {t} {{ alter property {p} {{ create constraint {a}; }}; }};', lambda s: None)
+            if rng.random() < 0.5:
+                a = sym.fresh('ac')
+                return ('create abstract constraint', f'create abstract constraint {a} {{ using (__subject__ > 0); }};',
+                        lambda s: s.aconstraints.append(a))
     k = rng.random()
 
     def eff(fn):
@@ -143,7 +296,12 @@ def gen_stmt(sym: Sym, rng):
         l = sym.fresh('l')
         lp = ' { create property w -> int64; }' if rng.random() < 0.3 else ''
         ddl = f"alter type {t} {{ create {'multi ' if rng.random() < 0.5 else ''}link {l} -> {tgt}{lp}; }};"
-        return 'create link', ddl, lambda s: s.types[t]['links'].__setitem__(l, tgt)
+
+        def e(s):
+            s.types[t]['links'][l] = tgt
+            if lp:
+                s.linkprops[(t, l)] = ['w']
+        return 'create link', ddl, e
     if k < 0.36:
         t = pick_t()
         props = [p for p, ty in sym.types[t]['props'].items() if ty in ('str', 'Short')]
@@ -292,6 +450,8 @@ class Auditor:
         from edb.schema import objects as so, name as sn, functions as s_func, operators as s_oper
         self.so, self.sn, self.s_func, self.s_oper = so, sn, s_func, s_oper
         self._fields = {}
+        self._refdicts = {}
+        self._backrefs = {}
 
     def ref_fields(self, clsname):
         r = self._fields.get(clsname)
@@ -382,6 +542,104 @@ class Auditor:
         except Exception as e:          # noqa: BLE001
             bad.append(f'names: lookup of {name} raised {type(e).__name__}: {e}')
 
+    # ---- refdict collections: name-keyed lookups held in object data
+    def refdict_info(self, cls):
+        r = self._refdicts.get(cls)
+        if r is None:
+            fs = cls.get_schema_fields()
+            r = self._refdicts[cls] = [(rd, fs[rd.attr].index, fs[rd.attr].type) for rd in cls.get_refdicts()]
+        return r
+
+    def backrefs(self, cls):
+        """names of the fields through which an object of class `cls` can point at its owner"""
+        r = self._backrefs.get(cls)
+        if r is None:
+            attrs = set()
+            for k in cls.__mro__:
+                if isinstance(k, self.so.ObjectMeta):
+                    for rd, _referrer in k.get_referring_classes():
+                        attrs.add(rd.backref_attr)
+            fs = cls.get_schema_fields()
+            r = self._backrefs[cls] = sorted((a, fs[a].index) for a in attrs if a in fs)
+        return r
+
+    def check_owner_side(self, s, i, bad):
+        """the refdict collections held by object i: keys are the keys the members'
+        CURRENT names give, lookups through the owner find the members, members are of
+        the right class and point back at the owner"""
+        o = s.get_by_id(i, None)
+        data = s._id_to_data.get(i)
+        if o is None or data is None:
+            return
+        for rd, findex, colltype in self.refdict_info(type(o)):
+            v = data[findex] if findex < len(data) else None
+            if v is None:
+                continue
+            ids = tuple(v[2])
+            keys = dict(v[3]).get('_keys')
+            if keys is not None and (len(keys) != len(ids) or len(set(keys)) != len(keys)):
+                bad.append(f'refdict: {self.describe(s, i)}.{rd.attr} has {len(ids)} members but keys {keys!r}')
+                continue
+            try:
+                coll = o.get_explicit_field_value(s, rd.attr, None)
+            except Exception as e:          # noqa: BLE001
+                bad.append(f'refdict: reading {self.describe(s, i)}.{rd.attr} raised {type(e).__name__}: {e}')
+                continue
+            for k, mid in enumerate(ids):
+                m = s.get_by_id(mid, None)
+                if m is None:
+                    continue                # reported as dangling elsewhere
+                try:
+                    want = colltype.get_key_for(s, m)
+                except Exception as e:      # noqa: BLE001
+                    bad.append(f'refdict: key of {self.describe(s, mid)} raised {type(e).__name__}: {e}')
+                    continue
+                if keys is not None and keys[k] != want:
+                    bad.append(f'refdict: {self.describe(s, i)}.{rd.attr} lists {self.describe(s, mid)} under the '
+                               f'stale key {str(keys[k])!r}; its current name gives {str(want)!r}')
+                if coll is not None:
+                    got = coll.get(s, want, None)
+                    if got is None or got.id != mid:
+                        bad.append(f'refdict: looking up {str(want)!r} in {self.describe(s, i)}.{rd.attr} gives '
+                                   f'{got!r}, not {self.describe(s, mid)}')
+                if not isinstance(m, rd.ref_cls):
+                    bad.append(f'refdict: {self.describe(s, i)}.{rd.attr} holds a {type(m).__name__}')
+
+    def check_member_side(self, s, i, bad):
+        """object i, if it names an owner (source / subject …), is listed in that owner's
+        refdict collection under the key its current name gives (no orphans)"""
+        m = s.get_by_id(i, None)
+        data = s._id_to_data.get(i)
+        if m is None or data is None:
+            return
+        for attr, findex in self.backrefs(type(m)):
+            v = data[findex] if findex < len(data) else None
+            if v is None:
+                continue
+            owner = s.get_by_id(v[1], None)
+            if owner is None:
+                continue                    # reported as dangling elsewhere
+            try:
+                rd = type(owner).get_refdict_for_class(type(m))
+            except KeyError:
+                continue
+            if rd.backref_attr != attr:
+                continue
+            fs = type(owner).get_schema_fields()
+            odata = s._id_to_data[owner.id]
+            ov = odata[fs[rd.attr].index]
+            if ov is None or i not in ov[2]:
+                bad.append(f'refdict: {self.describe(s, i)} names {self.describe(s, owner.id)} as its {attr} '
+                           f'but is not listed in its {rd.attr} (orphan)')
+                continue
+            keys = dict(ov[3]).get('_keys')
+            if keys is not None:
+                want = fs[rd.attr].type.get_key_for(s, m)
+                have = keys[tuple(ov[2]).index(i)]
+                if have != want:
+                    bad.append(f'refdict: {self.describe(s, owner.id)}.{rd.attr} lists {self.describe(s, i)} under '
+                               f'the stale key {str(have)!r}; its current name gives {str(want)!r}')
+
     def full(self, s):
         """Inv ∧ NoDangling over the whole schema"""
         bad = []
@@ -402,6 +660,10 @@ class Auditor:
                 return bad, inv
         for i in ids:
             self.check_name_fwd(s, i, bad)
+            self.check_owner_side(s, i, bad)
+            self.check_member_side(s, i, bad)
+            if len(bad) > 25:
+                break
         so, sn = self.so, self.sn
         for n, i in s._name_to_id.items():
             o = s.get_by_id(i, None)
@@ -445,6 +707,8 @@ class Auditor:
                 bad.append(f'types: {i} has data but no type entry')
             else:
                 self.check_name_fwd(s2, i, bad)
+                self.check_owner_side(s2, i, bad)
+                self.check_member_side(s2, i, bad)
         for r in removed:
             if s2.has_object(r) or s2.get_by_id(r, None) is not None:
                 bad.append(f'dropped: {self.describe(s, r)} still has a type entry')
@@ -471,6 +735,66 @@ class Auditor:
         for t in targets:
             self.check_referrers(s2, t, inv, bad)
         return bad[:25], changed, removed
+
+
+def two_pass(sch, ddl: str):
+    """Apply DDL the way the server does: first pass non-canonically
+    (`delta_and_schema_from_ddl`, which returns the delta with `canonical = True`), then
+    REPLAY that delta on the pre-statement schema with a fresh `CommandContext` — the
+    second result is the one the server stores (`server/compiler/ddl.py::_process_delta`;
+    `edb.testbase.lang.run_ddl` does the same and returns only the replayed schema).
+    Returns [(first-pass schema, replayed schema)] per statement of the text."""
+    from edb import edgeql
+    from edb.schema import ddl as s_ddl, delta as sd
+    out = []
+    cur = sch
+    for stmt in edgeql.parse_block(ddl):
+        s1, delta = s_ddl.delta_and_schema_from_ddl(
+            stmt, schema=cur, modaliases={None: 'default'}, testmode=True)
+        context = sd.CommandContext()
+        context.testmode = True
+        s2 = delta.apply(cur, context)
+        out.append((s1, s2))
+        cur = s2
+    return out
+
+
+def _norm(v):
+    """a reduced value without the `origin` of expressions (the replay records where an
+    expression came from, the first pass does not; it is not a reference or a name)"""
+    if isinstance(v, tuple):
+        if (len(v) == 3 and isinstance(v[0], str) and isinstance(v[1], tuple) and len(v[1]) == 4
+                and isinstance(v[1][0], str)):
+            return (v[0], _norm(v[1]))
+        if len(v) == 4 and v[0] == 'ObjectSet' and isinstance(v[2], (tuple, frozenset)):
+            return (v[0], v[1], frozenset(v[2]), v[3])     # a set: the order of the ids is hash order
+        return tuple(_norm(x) for x in v)
+    return v
+
+
+def structural_diff(aud, s1, s2):
+    """[] when the two schema values hold the same six indexes (data tuples modulo
+    expression origins), else a few descriptions of the difference"""
+    out = []
+    for attr in ('_id_to_type', '_name_to_id', '_globalname_to_id', '_shortname_to_id', '_refs_to'):
+        if getattr(s1, attr) != getattr(s2, attr):
+            out.append(f'{attr} differs')
+    d1, d2 = s1._id_to_data, s2._id_to_data
+    if len(d1) != len(d2):
+        out.append(f'_id_to_data: {len(d1)} vs {len(d2)} objects')
+    for i, a in d1.items():
+        b = d2.get(i)
+        if a is b or a == b:
+            continue
+        if b is None or _norm(a) != _norm(b):
+            cls = aud.so.ObjectMeta.get_schema_class(s1._id_to_type[i])
+            fn = {f.index: f.name for f in cls.get_schema_fields().values()}
+            slots = [fn.get(k, k) for k, (x, y) in enumerate(zip(a, b or ())) if _norm(x) != _norm(y)]
+            out.append(f'{aud.describe(s1, i)}: fields {slots} differ' if b is not None
+                       else f'{aud.describe(s1, i)} is missing from the replayed schema')
+            if len(out) > 5:
+                break
+    return out
 
 
 def shallow_fp(s, touched=()):
@@ -921,6 +1245,7 @@ def run_level2(ctx: core.Ctx):
     bases = []
     for k, sdl in enumerate(BASES):
         sch = env.load_schema(sdl)
+        sch = env.run_ddl(sch, 'create module other;')
         if isinstance(sch, s_schema.ChainedSchema):
             sch = sch.get_top_schema()
         bad, inv = aud.full(sch)
@@ -935,7 +1260,7 @@ def run_level2(ctx: core.Ctx):
     n_stmts = ctx.budget(16, 20)
     st = {'statements': 0, 'accepted': 0, 'rejected': 0, 'kinds': {}, 'rejected_kinds': {}, 'errors': {},
           'objects_touched': 0, 'objects_removed': 0, 'full_audits': len(bases), 'versions': 0, 'scripts': 0,
-          'crashes': {}, 'raw_ops_logged': 0, 'raw_ops_replayed': 0, 'raw_ops_unknown_version': 0,
+          'crashes': {}, 'replays_compared': 0, 'raw_ops_logged': 0, 'raw_ops_replayed': 0, 'raw_ops_unknown_version': 0,
           'raw_op_kinds': {}, 'guard_checked': 0, 'guard_violations': {}, 'delists': 0,
           'statements_untranslatable': 0, 'trace_disagreements': 0}
     scripts = []
@@ -946,11 +1271,10 @@ def run_level2(ctx: core.Ctx):
             d = f.get('detail')
             if isinstance(d, dict) and 'script' in d:
                 scripts.append((d['base'], d['script']))
-    for sc in range(len(scripts) if ctx.replay else n_scripts):
-        if ctx.replay:
-            base, fixed = scripts[sc]
-        else:
-            base, fixed = sc % len(bases), None
+    if not ctx.replay:
+        scripts = list(CORPUS) + [(k % len(bases), None) for k in range(n_scripts)]
+    for sc in range(len(scripts)):
+        base, fixed = scripts[sc]
         sch, inv0, _deep0, fp0 = bases[base]
         inv = {t: set(v) for t, v in inv0.items()}
         sym = Sym(base)
@@ -959,7 +1283,7 @@ def run_level2(ctx: core.Ctx):
         key = None
         for k in range(len(fixed) if fixed is not None else n_stmts):
             if fixed is not None:
-                kind, ddl, eff = 'replay', fixed[k], (lambda s: None)
+                kind, ddl, eff = 'fixed script', fixed[k], (lambda s: None)
             else:
                 kind, ddl, eff = gen_stmt(sym, rng)
             done.append(ddl)
@@ -971,7 +1295,8 @@ def run_level2(ctx: core.Ctx):
             outcome = None
             try:
                 with tracer:
-                    s2 = env.run_ddl(sch, ddl)
+                    passes = two_pass(sch, ddl)
+                    s1, s2 = passes[-1]
             except BaseException as e:      # noqa: BLE001
                 outcome = e
             # ---- trace validation of what the engine did to the FlatSchema values
@@ -1013,6 +1338,22 @@ def run_level2(ctx: core.Ctx):
             if isinstance(s2, s_schema.ChainedSchema):
                 s2 = s2.get_top_schema()
             st['accepted'] += 1
+            # the server stores the REPLAYED schema: it must be the schema the first pass computed
+            for (p1, p2) in passes:
+                if isinstance(p1, s_schema.ChainedSchema):
+                    p1 = p1.get_top_schema()
+                if isinstance(p2, s_schema.ChainedSchema):
+                    p2 = p2.get_top_schema()
+                diff = structural_diff(aud, p1, p2)
+                st['replays_compared'] += 1
+                if diff:
+                    ctx.fail(f'l2-replay:{key}', f'level 2: replaying the canonical delta of {ddl!r} on the '
+                             f'pre-statement schema (what the server stores) does not give the schema the first '
+                             f'pass computed: {"; ".join(diff[:3])}', detail)
+                    b1, _ = aud.full(p1)
+                    for b in b1[:3]:
+                        ctx.fail(f'l2-oracle-firstpass:{key}:{b[:50]}', f'level 2: first-pass schema after {ddl!r}: {b}',
+                                 detail)
             try:
                 eff(sym)
             except Exception:           # noqa: BLE001  (the generator's picture is only an aim)
